@@ -441,9 +441,11 @@ def build_lis(case):
         recs.append(L.table_record(34, b'FILM', [b'MNEM', b'GCOD', b'GDEC', b'DEST', b'DSCA'], film_rows(cfg)))
         recs.append(pres_table(cfg))
     absent = Fraction(-3997, 4) if case.get('absent') is None else Fraction(case['absent'])
+    # the X axis may be recorded in another unit than the one the plot interval is asked in (tenths of an inch against feet)
+    xunits, xfactor = (b'.1IN', 120) if case.get('xunits') == '.1IN' else (b'FEET', 1)
     ebs = [(1, 66, b'\x00'), (2, 66, b'\x00'), (4, 66, bytes([255 if case['down'] else 1])),
-           (8, 68, L.enc68(Fraction(1, 2))), (9, 65, b'FEET'), (12, 68, L.enc68(absent)), (13, 66, b'\x00')]
-    dsbs = [L.dsb(b'DEPT', b'FEET', 4, 1, 68)]
+           (8, 68, L.enc68(Fraction(1, 2) * xfactor)), (9, 65, xunits), (12, 68, L.enc68(absent)), (13, 66, b'\x00')]
+    dsbs = [L.dsb(b'DEPT', xunits, 4, 1, 68)]
     for mnem, units, _s, _lo, _hi, _log in case['chans']:
         dsbs.append(L.dsb(mnem.ljust(4).encode(), units.ljust(4).encode(), 4, 1, 68))
     recs.append(L.dfsr(ebs, dsbs))
@@ -451,7 +453,7 @@ def build_lis(case):
     chv = channel_values(case)
     frames = []
     for f in range(case['n']):
-        by = L.enc68(Fraction(xs[f]))
+        by = L.enc68(Fraction(xs[f]) * xfactor)
         for vals in chv:
             v = vals[f]
             by += L.enc68(absent) if v is ABSENT else L.enc68(Fraction(v))
@@ -1189,6 +1191,20 @@ def gen_absent(tier):
                 yield c
 
 
+def gen_xunits(tier):
+    """The X axis recorded in tenths of an inch, the plot interval asked for in feet (Plot entry; PlotLogs uses the file's units)."""
+    for rot in range(len(SHAPES)):
+        for down in (False, True):
+            c = tables_case([FILM_EEE], three_curves(), three_chans(rot), down=down)
+            c['xunits'] = '.1IN'
+            yield c
+    for uid in list(formats())[:(2 if tier == 'quick' else 6)]:
+        chs = format_channels(uid, True)
+        if chs:
+            chans = [[name, 'UNIT', SHAPES[(2 + i) % len(SHAPES)], stored68(lo), stored68(hi), log] for i, (name, lo, hi, log) in enumerate(chs)]
+            yield {'part': 'b', 'input': 'LIS', 'entry': 'Plot', 'cfg': {'kind': 'xml', 'uid': uid}, 'chans': chans, 'n': 12, 'down': False, 'scale': 0, 'xunits': '.1IN'}
+
+
 def gen_second(tier):
     """A second plot of part of the pass with the same Plot / LogPass objects."""
     for rot in range(len(SHAPES)):
@@ -1228,6 +1244,7 @@ GROUPS = {
     'logs_dir': gen_logs_dir,
     'absent': gen_absent,
     'second': gen_second,
+    'xunits': gen_xunits,
 }
 CHUNK = {'pres': (60, 200), 'film': (40, 80), 'logs_dir': (1, 2)}     # cases per shard (quick, thorough); other groups: (20, 25), a plot from a
 # LgFormat file costs about ten times a plot from a PRES table
